@@ -891,10 +891,6 @@ def fock_sequence(draw, sim):
             if sim == "P" and lossy:
                 excl.append(B_P_LOSSY_POSTSEL)
                 continue
-            if sim == "P" and superposed and len(
-                    {sum(o) for o, _ in progs.prep_terms(prep, d)}) > 1:
-                excl.append(B_P_PS_SUPER)
-                continue
             k = draw(st.integers(1, len(active) - 1))
             modes = draw(progs.ordered_modes(d, k, active))
             photons = [draw(st.integers(0, 1)) for _ in modes]
@@ -1318,10 +1314,10 @@ def prop_p_lossy(case, ctx):
 
 def single_origin(prop):
     """Re-raise every Violation from ONE source line.  Hypothesis keys distinct failures
-    on the raise location and shrinks each separately; the driver only remembers the last
-    failing case, so with many raise sites and an exhausted shrink budget the final replay
-    of another origin would look flaky (harness error).  One origin -> one shrink target;
-    other buckets are found in the driver's later rounds."""
+    on the raise location and shrinks each of them separately; with the many raise sites of
+    this module that would spend the 45 s shrink budget of the quick tier on several
+    targets at once.  One origin -> one shrink target per round; other buckets are found
+    in the driver's later rounds (collect-then-shrink)."""
     def wrapped(case, ctx):
         err = None
         try:
